@@ -45,6 +45,8 @@ func verifPopulateGenesis(st *State) types.Hash {
 	st.Accounts.SetBalance(A, 2, b2)
 	vol2.Add(vol2, b2)
 	st.Accounts.CreateMultisig([]uint32{1, 2}, []types.Address{A, B}, 2, verifA(9))
+	// an account that has spent everything: no balance left, but a nonce
+	st.Accounts.SetNonce(verifA(8), verifU64Range("nonce.spent", 1, 1000000))
 	st.Candidates.Create(A, A, A, P, 10, 1, 0)
 	st.Candidates.Create(B, B, B, Q, 20, 1, 0)
 	st.Candidates.SetOnline(P)
@@ -123,6 +125,7 @@ func VerifHarness_C11_ExportImport() {
 		panic(err)
 	}
 	verifAssert("C21:used-check-survives-export-import", st2.Checks.VerifIsUsedHash(h))
+	verifAssert("C04:nonce-of-an-emptied-account-survives-export-import", st2.Accounts.GetNonce(verifA(8)) == st.Accounts.GetNonce(verifA(8)))
 	verifCompare11(verifObserve(st), verifObserve(st2))
 	exp2 := st2.Export()
 	verifAssert("C11:second-export-passes-validation", exp2.Verify() == nil)
